@@ -6,12 +6,12 @@
 # encoding is always regenerated from /repo's current working tree.
 set -e
 V=/verif/.venv
-if [ ! -x "$V/bin/python" ] || ! "$V/bin/python" -c "import z3, numpy" >/dev/null 2>&1; then
+if [ ! -x "$V/bin/python" ] || ! "$V/bin/python" -c "import z3, numpy, sympy" >/dev/null 2>&1; then
   rm -rf "$V"
   /venv/bin/python -m venv "$V"
   SP=$("$V/bin/python" -c "import sysconfig; print(sysconfig.get_paths()['purelib'])")
   echo "import site; site.addsitedir('/venv/lib/python3.12/site-packages')" > "$SP/_venv_overlay.pth"
-  PIP_NO_INDEX=1 "$V/bin/python" -m pip install -q --no-index --find-links /opt/veriftools/wheels z3-solver cvc5 >/dev/null 2>&1 || \
+  PIP_NO_INDEX=1 "$V/bin/python" -m pip install -q --no-index --find-links /opt/veriftools/wheels z3-solver cvc5 sympy >/dev/null 2>&1 || \
   PIP_NO_INDEX=1 "$V/bin/python" -m pip install -q --no-index --find-links /opt/veriftools/wheels z3-solver
 fi
 "$V/bin/python" -c "import z3, numpy, scipy" 
